@@ -467,6 +467,26 @@ def regtable_task():
                     res.oblig(ok)
                     if not ok and len(bad) < 40:
                         bad.append(('%s (compress=%s)' % ((form % text).replace('\n', ' / '), c), v, str(base), str(out)))
+    # expressions written directly as operands: every documented operator, compared with the literal value
+    exprs = {'100 // 8': 12, '7 % 4': 3, '1 << 4': 16, '(2 + 3) * 4': 20, '0x10 | 3': 19, '~0 & 0xff': 255, '-(-5)': 5, '0x7f ^ 0x0f': 112,
+             '1000 >> 3': 125, '3 - 10': -7, '2 * 3 + 4 * 5': 26, '2 * (3 + 4) * 5': 70, '100 // 8 // 2': 6, '-7 // 2': -4, '-7 % 4': 1,
+             "'A' + 1": 66, '0b101 + 0x5 + 5': 15}
+    for form in ('addi x5, x0, %s', 'lw x5, x6, %s', 'sw x5, x6, %s', 'dw %s', 'K = %s\ndb K & 0xff', 'li x7, %s', 'pack <h %s', 'c.li x8, (%s) & 15'):
+        for text, v in exprs.items():
+            for c in (False, True):
+                try:
+                    base = bytes(real.assemble(form % str(v), compress=c))
+                except Exception as e:
+                    base = repr(e)[:80]
+                try:
+                    out = bytes(real.assemble(form % text, compress=c))
+                except Exception as e:
+                    out = repr(e)[:80]
+                nnum += 1
+                ok = out == base
+                res.oblig(ok)
+                if not ok and len(bad) < 40:
+                    bad.append(('%s (compress=%s)' % ((form % text).replace('\n', ' / '), c), v, str(base), str(out)))
     res['validated'] += nnum
     res['samples'].append(dict(register_spellings=len(spellings), table_keys=len(got), mixed_spelling_programs=npairs, numeral_spelling_programs=nnum))
     for b in bad[:5]:
@@ -608,7 +628,7 @@ def _pair_effect(insns, ra, rb, target, what, pc0):
         last = e
         regs, pc = sem.execute(e, regs, pc, n)
     t = target
-    if what == 'reg':
+    if what in ('reg', 'reg2'):
         ok.append(sem.rd_(regs, ra) == t)
         ok.append(last.mem_kind == 0)
     elif what == 'load':
@@ -632,6 +652,8 @@ HILO_EXEC = [
     ('auipc RA, %hi(V)\njalr RB, RA, %lo(V)', {}, 'V', 'jump', True, None),
     ('addi x0 x0 0\nlui RA, %hi(V)\nlbu RB, RA, %lo(V)', {}, 'V', 'load', False, None),
     ('K = V\nlui RA, %hi(K)\naddi RA, RA, %lo(K)', {}, 'V', 'reg', False, None),
+    # the pair goes through a scratch register: lui into RB, addi from RB into RA (RA may be sp)
+    ('lui RB, %hi(V)\naddi RA, RB, %lo(V)', {}, 'V', 'reg2', False, None),
 ]
 
 
@@ -659,6 +681,8 @@ def hilo_exec_task(k, bits, compress):
             consts['V'] = p.int('V', bits)
         if files:
             markers['G0'] = p.int('G0', lo=0, hi=(1 << 23))
+        if what == 'reg2':
+            p.assume(consts['RB'] != 0)      # the scratch register must be able to hold the upper part
         if what == 'load':
             p.assume(consts['RB'] != 0)      # a load into x0 is a hint; its compressed forms are excluded anyway
         p.notes.update(constants=consts, markers=markers)
@@ -766,6 +790,9 @@ ALIAS_PROGRAMS = [
      [('I', ['A', 0]), ('I', ['L1', 'B']), ('I', ['L2', 'C']), ('I', ['C', 'L3']), ('R', ['A', 'B', 'C']), ('R', ['L4', 'L5', 'A'])]),
     (['mv A, @L1@', 'mv @L2@, B', 'add @L3@, @L4@, @L5@', 'sltu A, @L6@, C', 'slli @L7@, B, 3'],
      [('I', ['A', 'L1']), ('I', ['L2', 'B']), ('R', ['L3', 'L4', 'L5']), ('R', ['A', 'L6', 'C']), ('I', ['L7', 'B'])]),
+    (['mv A, @L1@', 'not @L2@, B', 'neg C, @L3@', 'seqz @L4@, A', 'snez B, @L5@', 'mv @L6@, C', 'sltz A, B', 'not @L7@, @L8@'],
+     [('I', ['A', 'L1']), ('I', ['L2', 'B']), ('R', ['C', 0, 'L3']), ('I', ['L4', 'A']), ('R', ['B', 0, 'L5']), ('I', ['L6', 'C']),
+      ('R', ['A', 'B', 0]), ('I', ['L7', 'L8'])]),
 ]
 
 
